@@ -1,7 +1,9 @@
 mod checks;
 mod common;
 mod env;
+mod gen;
 mod hist;
+mod inc;
 mod model;
 mod ops;
 mod rec;
